@@ -29,7 +29,7 @@ RULE = ("abstract descriptions of C01 crossed with two independent random spelli
 
 def correspondence(run):
     rng = run.rng
-    texts = list(parser_corr.EDGE_CASES)
+    texts = list(parser_corr.EDGE_CASES) + parser_corr.neighbours()
     for d, t, _ in c01.gen_cases(run, run.budget(400, 8000)):
         texts.extend(t)
     for _ in range(run.budget(400, 8000)):
